@@ -9,7 +9,9 @@ WT=/tmp/try_seed_$$
 git -C /repo worktree add -q --detach $WT HEAD || exit 2
 cd $WT
 echo "== demo on unchanged tree"; /venv/bin/python $SD/demo.py > /tmp/try_seed_$$.clean.log 2>&1; echo "exit $?"
-git apply $SD/patch.diff || { echo "PATCH DOES NOT APPLY"; git -C /repo worktree remove --force $WT; exit 2; }
+# (patch_head.diff = the same slip re-created on the current /repo HEAD, for seeds whose lines a later fix rewrote)
+P=$SD/patch.diff; [ -f $SD/patch_head.diff ] && ! git apply --check $SD/patch.diff 2>/dev/null && P=$SD/patch_head.diff
+git apply $P || { echo "PATCH DOES NOT APPLY"; git -C /repo worktree remove --force $WT; exit 2; }
 echo "== demo on changed tree"; /venv/bin/python $SD/demo.py > /tmp/try_seed_$$.mut.log 2>&1; echo "exit $?"; tail -3 /tmp/try_seed_$$.mut.log
 cd "$ROOT"
 for id in "$@"; do
